@@ -168,21 +168,22 @@ Theorem C16_hygienize_flat_call_block_partial :
 Proof. intros _ s h xs L. exact (flat_call_block_lemma HYGIENIZE_ADJUSTS_CALLER s h xs L). Qed.
 Print Assumptions C16_hygienize_flat_call_block_partial.
 
-(* ... but the full statement (own statements keep their emission order whatever the body calls) is
-   false for the code as it is: a nested hygienized call defined at or before the caller's
-   definition point shifts the list under the caller's saved index *)
+(* the index bookkeeping used before 6cc3727 (h_run) violated the own-order statement: a nested
+   hygienized call defined at or before the caller's definition point shifted the list under the
+   caller's saved index (vacuous for today's policy; the obligation is C16_hygienize_own_order below) *)
 Definition C16_hygienize_own_order_full : Prop := inject_own_order HYGIENIZE_ADJUSTS_CALLER.
 Theorem C16_hygienize_own_order_refuted :
   HYGIENIZE_USES_CURSORS = false -> HYGIENIZE_ADJUSTS_CALLER = false -> ~ C16_hygienize_own_order_full.
 Proof. unfold C16_hygienize_own_order_full. intros _ ->. exact inject_own_order_refuted_lemma. Qed.
 Print Assumptions C16_hygienize_own_order_refuted.
 
-(* The repair proposed in harness/C16/proposed_repairs/hygienize_cursors.diff (every hygienized function
-   owns a cursor that add_statnode keeps up to date; model hc_run): the full-strength own-order
-   statement holds - for every nesting depth, as long as the function is not re-entered.  This is a
-   theorem about the PROPOSED bookkeeping; it becomes the obligation for the tree once the scrape finds
-   it (HYGIENIZE_USES_CURSORS), until then C16_hygienize_own_order_refuted describes the code. *)
-Theorem C16_hygienize_cursor_own_order :
+(* MAIN INJECTION-ORDER OBLIGATION (full strength).  hygienize keeps, since 6cc3727, one cursor per
+   hygienized function which add_statnode keeps up to date (model hc_run; the scrape sets
+   HYGIENIZE_USES_CURSORS, checked here by computation: if the source goes back to saved absolute
+   indices this proof no longer checks).  Whatever a hygienized function's body calls - other
+   hygienized functions to any depth, not itself - the statements it emits keep their emission order. *)
+Theorem C16_hygienize_own_order :
+  HYGIENIZE_USES_CURSORS = true /\
   forall s h body,
     hc_cur s = None -> hc_fn s = None ->
     (forall f, (hc_saved s f <= length (hc_nodes s))%nat) ->
@@ -190,5 +191,5 @@ Theorem C16_hygienize_cursor_own_order :
     (forall x, In x (own_emits body) -> ~ In x (hc_nodes s)) ->
     (forall y, In y (nested_emits body) -> ~ In y (own_emits body)) ->
     restrict (own_emits body) (hc_nodes (hc_run s (HCall h body))) = own_emits body.
-Proof. exact cursor_own_order_lemma. Qed.
-Print Assumptions C16_hygienize_cursor_own_order.
+Proof. split; [reflexivity|exact cursor_own_order_lemma]. Qed.
+Print Assumptions C16_hygienize_own_order.
